@@ -23,7 +23,7 @@ def make_spec(g, allow):
         second.append((name, cs))
     return dict(cfgs=h.cfgs, execs=h.execs, second=second, flags=set(h.flags), orphan=r.random() < 0.5,
                 mode2=r.choice([(False, ''), (False, 'true'), (True, ''), (False, 'clean')]),
-                skips=r.randint(0, 3), sort=r.choice(['-', '0', '1']))
+                skips=r.randint(0, 4), sort=r.choice(['-', '0', '1']))
 
 
 def classify(line):
@@ -62,7 +62,8 @@ def render(tag, spec):
         call_idx += emit_exec(w, texec, name, calls)
     for s in range(spec['skips']):
         texec += 1
-        w.add('begin %d %s' % (texec, core.hx(b'TestSkipped%d' % s)))
+        # the same test may be skipped more than once in a process (-count=N): every call counts
+        w.add('begin %d %s' % (texec, core.hx(b'TestSkipped%d' % (s % 2))))
         w.add('skip %d %s' % (texec, ['skip', 'skipf', 'skipnow'][s % 3]))
 
     def oracle(line, raw, ww):
@@ -154,6 +155,37 @@ def run(ctx):
     bigs = [cw.render('c20-big-%d' % k, cw.big_clean_spec(g, mode, srt), [('summary-lists-exactly-the-obsolete-items', cw.o_stale_reported)])
             for k, (mode, srt) in enumerate([((False, ''), '-'), ((False, 'clean'), '1')])]
     run_suite(ctx, 'clean.big-file-summary', bigs, known=known)
+    # the same obsolete id in TWO used files, the same obsolete file name in two directories: the
+    # summary lists every item Clean judged obsolete, one row each, and the header counts the rows
+    dups = []
+    for k, (mode, srt) in enumerate([((False, ''), '-'), ((False, 'clean'), '-'), ((False, ''), '1'), ((True, 'clean'), '0')]):
+        w = World('c20-dup-%d' % k)
+        w.add(mode_line(*mode))
+        w.add('cfg 1 %s - - none none' % core.hx('snaps'))
+        w.add('cfg 2 %s %s - none none' % (core.hx('snaps'), core.hx('custom')))
+        w.add('cfg 3 %s - - none none' % core.hx('other'))
+        for f, live in (('snaps/zz_verif_harness_test.snap', b'one'), ('snaps/custom.snap', b'two'), ('other/zz_verif_harness_test.snap', b'three')):
+            w.add('fsput %s %s' % (core.hx(f), core.hx(b'\n[TestOld - 1]\nold in ' + live + b'\n---\n\n[TestLive - 1]\n' + live + b'\n---\n')))
+        w.add('fsput %s %s' % (core.hx('snaps/gone_test.snap'), core.hx(b'\n[TestGone - 1]\nx\n---\n')))
+        w.add('fsput %s %s' % (core.hx('other/gone_test.snap'), core.hx(b'\n[TestGone - 1]\nx\n---\n')))
+        w.add('begin 1 %s' % core.hx(b'TestLive'))
+        w.add('snap 1 1 %s' % core.hx(b'one'))
+        w.add('snap 2 1 %s' % core.hx(b'two'))
+        w.add('snap 3 1 %s' % core.hx(b'three'))
+        w.add('end 1')
+        deleting = (not mode[0]) and mode[1] == 'clean'
+
+        def expd(line, raw, ww, deleting=deleting):
+            t = line.out.decode('utf-8', 'replace')
+            verb = 'removed' if deleting else 'obsolete'
+            if ('3 snapshot tests %s' % verb) not in t or t.count('TestOld - 1\n') != 3:
+                return 'three files each hold an obsolete [TestOld - 1]: the summary must count and list 3 tests, got %r' % t
+            if ('2 snapshot files %s' % verb) not in t or t.count('gone_test.snap\n') != 2:
+                return 'two directories each hold an obsolete gone_test.snap: the summary must count and list 2 files, got %r' % t
+            return None
+        w.add('clean %s - 1' % srt, ('summary-lists-every-obsolete-item', expd))
+        dups.append(w)
+    run_suite(ctx, 'clean.duplicate-items', dups, known=known)
     # a very long line (> 1 MiB) in a snapshot file that Clean examines: the totals must still be shown
     hw = World('c20huge')
     hw.add(mode_line(False, ''))
